@@ -74,6 +74,19 @@ def generate(rng):
       programs[pid] = {"module": "main", "src": cp[1], "deps": [],
                        "exports": {}, "corpus": cp[0]}
       mains.append(pid)
+  if rng.random() < 0.3:
+    # a source that does not compile: the analysis ends early with a
+    # python-compiler-error; what follows it in a process must not notice
+    bad = rng.choice([
+        "def f(:\n  return 1\n",
+        "x = 1\n  y = 2\n",
+        "class C:\n\tdef m(self):\n        return 1\n\tdef n(self):\n\t\treturn (\n",
+        "import os\nK = [1, 2\nL = 3\n",
+        "def g():\n  return\n   1\n",
+    ])
+    programs["x0"] = {"module": "main", "src": bad, "deps": [], "exports": {},
+                      "poison": True}
+    mains.append("x0")
   # request pool
   pool = []
   opt_variants = [{"quick": True}, {}, {"quick": True, "analyze_annotated": True},
@@ -117,6 +130,11 @@ def generate(rng):
             req["force_imports"] = rng.sample(
                 ["os", "sys", "math", "string", "up0", "up1", "nonexistent_mod"],
                 rng.randrange(1, 4))
+      if w != 0 and req.get("kind") != "builtins" and rng.random() < 0.12:
+        # storage fault inside this analysis: its k-th read of a simulated
+        # file (source, dependency stubs) fails
+        req["io_fault"] = {"nth": rng.choice([1, 1, 1, 2, 2, 3]),
+                           "errno": rng.choice(["EIO", "ENOENT", "EACCES", "EMFILE"])}
       if perturbed:
         pert = {}
         if rng.random() < 0.5:
@@ -187,6 +205,9 @@ def evaluate(trace, full=False):
         stats["ctx"].add(kernel.digest([trace_key(trace), ctx]))
         if resp["req"] > 0 or hs != 0:
           stats["nontrivial_ctx"] += 1
+      if resp.get("faulted"):
+        stats["probes"]["faulted_responses_not_compared"] = (
+            stats["probes"].get("faulted_responses_not_compared", 0) + 1)
       if violation:
         continue
       if resp.get("errors_unique") is False:
@@ -199,6 +220,11 @@ def evaluate(trace, full=False):
         violation = {"class": "UNSORTED", "oracle": "errors_sorted",
                      "what": "reported errors are not sorted by position",
                      "worker": w, "req": resp["req"], "key": resp["key"]}
+        continue
+      if resp.get("faulted"):
+        # narrow relaxation: an analysis that met an injected I/O error may
+        # fail or report anything about ITS OWN input; every other response
+        # of the process is still held to byte equality
         continue
       is_stale = stale_after_save(trace, w, resp["req"])
       for c in COMPONENTS:
@@ -334,6 +360,12 @@ def shrink(trace, v0, budget=30):
   for wk in t["workers"]:
     for rq in wk["history"]:
       rq.pop("pert", None)
+  if still(t):
+    cur = t
+  t = json.loads(json.dumps(cur))
+  for wk in t["workers"]:
+    for rq in wk["history"]:
+      rq.pop("io_fault", None)
   if still(t):
     cur = t
   t = json.loads(json.dumps(cur))
